@@ -30,42 +30,63 @@ Proof. intros. apply Z.ltb_ge. lia. Qed.
 Lemma ltb_true_of_lt a b : a < b -> (a <? b) = true.
 Proof. intros. apply Z.ltb_lt. lia. Qed.
 
+(* One tactic for all bodies, so that a harmless rewording of a body (another but equivalent
+   comparison, branches in another order) does not break the proof: split on every test, turn the
+   tests into facts about Z, normalise the shifts, and compare. *)
+Ltac tests_to_facts :=
+  repeat match goal with
+  | H : (_ >=? _) = true |- _ => apply geb_ge in H
+  | H : (_ >=? _) = false |- _ => apply geb_lt in H
+  | H : (_ >? _) = true |- _ => apply gtb_gt in H
+  | H : (_ >? _) = false |- _ => apply gtb_le in H
+  | H : (_ <=? _) = true |- _ => apply Z.leb_le in H
+  | H : (_ <=? _) = false |- _ => apply Z.leb_gt in H
+  | H : (_ <? _) = true |- _ => apply Z.ltb_lt in H
+  | H : (_ <? _) = false |- _ => apply Z.ltb_ge in H
+  | H : (_ =? _) = true |- _ => apply Z.eqb_eq in H
+  | H : (_ =? _) = false |- _ => apply Z.eqb_neq in H
+  end.
+
+Ltac split_tests :=
+  repeat match goal with
+  | |- context [if ?c then _ else _] => destruct c eqn:?
+  end.
+
+Lemma shiftl_as_mul a b : 0 <= b -> a * 2 ^ b = Z.shiftl a b.
+Proof. intros. symmetry. apply Z.shiftl_mul_pow2. assumption. Qed.
+Lemma shiftr_neg_zero a b : b = 0 -> Z.shiftr a (- b) = Z.shiftl a b.
+Proof. intros ->. reflexivity. Qed.
+Lemma shiftr_zero a b : b = 0 -> Z.shiftr a b = a.
+Proof. intros ->. apply Z.shiftr_0_r. Qed.
+Lemma shiftl_zero a b : b = 0 -> Z.shiftl a b = a.
+Proof. intros ->. apply Z.shiftl_0_r. Qed.
+
+Ltac close_op :=
+  simpl; try reflexivity; try (exfalso; lia);
+  repeat rewrite shiftl_as_mul by lia;
+  try reflexivity;
+  try (rewrite shiftr_neg_zero by lia; reflexivity);
+  try (rewrite shiftr_zero by lia; reflexivity);
+  try (rewrite shiftl_zero by lia; reflexivity);
+  try (symmetry; rewrite shiftr_zero by lia; reflexivity);
+  try (symmetry; rewrite shiftl_zero by lia; reflexivity);
+  try (f_equal; lia).
+
+Ltac op_agrees :=
+  unfold body_div, body_mod, body_lshift, body_rshift, body_lsh,
+         py_floordiv, py_mod, py_pow, py_lshift, py_rshift, py_assert, catch_zde, sem_bin, arith_error;
+  split_tests; tests_to_facts; close_op.
+
 Lemma agree_div a b : res_of (body_div a b) = sem_bin BDiv a b.
-Proof. unfold body_div, py_floordiv, sem_bin, arith_error. destruct (b =? 0); reflexivity. Qed.
-
+Proof. op_agrees. Qed.
 Lemma agree_mod a b : res_of (body_mod a b) = sem_bin BMod a b.
-Proof. unfold body_mod, py_mod, sem_bin, arith_error. destruct (b =? 0); reflexivity. Qed.
-
+Proof. op_agrees. Qed.
 Lemma agree_lshift a b : res_of (body_lshift a b) = sem_bin BShl a b.
-Proof.
-  unfold body_lshift, py_pow, py_rshift, sem_bin, arith_error.
-  destruct (b >=? 0) eqn:E.
-  - apply geb_ge in E. rewrite (ltb_false_of_le b 0 E). simpl.
-    rewrite Z.shiftl_mul_pow2 by lia. reflexivity.
-  - apply geb_lt in E. rewrite (ltb_true_of_lt b 0 E).
-    rewrite (ltb_false_of_le (- b) 0) by lia. reflexivity.
-Qed.
-
+Proof. op_agrees. Qed.
 Lemma agree_rshift a b : res_of (body_rshift a b) = sem_bin BShr a b.
-Proof.
-  unfold body_rshift, py_pow, py_rshift, py_assert, sem_bin, arith_error.
-  destruct (b =? 0) eqn:E0.
-  - apply Z.eqb_eq in E0. subst b. simpl. rewrite Z.shiftr_0_r. reflexivity.
-  - apply Z.eqb_neq in E0. destruct (b >? 0) eqn:E.
-    + apply gtb_gt in E. rewrite (ltb_false_of_le b 0) by lia. reflexivity.
-    + apply gtb_le in E. rewrite (ltb_true_of_lt b 0) by lia.
-      rewrite (ltb_false_of_le (- b) 0) by lia. reflexivity.
-Qed.
-
+Proof. op_agrees. Qed.
 Lemma agree_lsh a b : res_of (body_lsh a b) = sem_bin BLsh a b.
-Proof.
-  unfold body_lsh, py_lshift, py_rshift, sem_bin.
-  destruct (b >=? 0) eqn:E.
-  - apply geb_ge in E. rewrite (ltb_false_of_le b 0 E).
-    replace (0 <=? b) with true by (symmetry; apply Z.leb_le; lia). reflexivity.
-  - apply geb_lt in E. rewrite (ltb_false_of_le (- b) 0) by lia.
-    replace (0 <=? b) with false by (symmetry; apply Z.leb_gt; lia). reflexivity.
-Qed.
+Proof. op_agrees. Qed.
 
 Lemma ops_agree_bin : forall (o : binop) (a b : Z),
   exists f, infix_body (binop_text o) = Some f /\ res_of (f a b) = sem_bin o a b.
